@@ -1,9 +1,9 @@
 package dbsim
 
 import (
-	"github.com/safing/portbase/runtime"
 	"errors"
 	"fmt"
+	"github.com/safing/portbase/runtime"
 	"math/rand/v2"
 	"sort"
 	"strings"
@@ -132,17 +132,17 @@ func genC14(rng *rand.Rand, tier string) *C14Plan {
 }
 
 type wrec struct {
-	G        int
-	Writer   int
-	Kind     string
-	Key      string
-	ID       string // event id: nonce, nonce#del
-	F        Fields
+	G             int
+	Writer        int
+	Kind          string
+	Key           string
+	ID            string // event id: nonce, nonce#del
+	F             Fields
 	Secret, Crown bool
-	Inv, Ret uint64
-	OK       bool
-	Injected bool
-	Err      error
+	Inv, Ret      uint64
+	OK            bool
+	Injected      bool
+	Err           error
 }
 
 type feedRec struct {
@@ -151,14 +151,14 @@ type feedRec struct {
 }
 
 type subState struct {
-	spec     SubSpec
-	sub      *database.Subscription
-	subRet   uint64
+	spec                 SubSpec
+	sub                  *database.Subscription
+	subRet               uint64
 	cancelInv, cancelRet uint64
-	cancelled bool
-	feed     []feedRec
-	closedSeq uint64
-	closed   bool
+	cancelled            bool
+	feed                 []feedRec
+	closedSeq            uint64
+	closed               bool
 }
 
 type hookCall struct {
@@ -170,14 +170,14 @@ type hookCall struct {
 }
 
 type hookState struct {
-	spec   HookSpec
-	reg    *database.RegisteredHook
-	regRet uint64
+	spec                 HookSpec
+	reg                  *database.RegisteredHook
+	regRet               uint64
 	cancelInv, cancelRet uint64
-	cancelled bool
-	calls  []hookCall
-	s      *c14State
-	idx    int
+	cancelled            bool
+	calls                []hookCall
+	s                    *c14State
+	idx                  int
 }
 
 func (h *hookState) UsesPreGet() bool  { return h.spec.PreGet }
@@ -257,13 +257,13 @@ type injStorage struct {
 func (injStorage) Get(key string) (record.Record, error) { return nil, storage.ErrNotFound }
 
 type c14State struct {
-	p      *C14Plan
-	rc     *simkit.RunCtx
-	subs   []*subState
-	hooks  []*hookState
-	writes []*wrec
-	gets   []*wrec
-	injCtl *database.Controller
+	p          *C14Plan
+	rc         *simkit.RunCtx
+	subs       []*subState
+	hooks      []*hookState
+	writes     []*wrec
+	gets       []*wrec
+	injCtl     *database.Controller
 	push       func(record.Record)
 	pushPrefix string
 }
